@@ -696,7 +696,7 @@ impl Area for Hubs {
         "a real CommandHub thread (worker_timeout 1 s) with 0..3 fake workers and 1..3 scripted clients; now and then the last 1-2 workers have a channel ceiling (4 KiB) that refuses a big mutating request (8 KB id: write_message fails, the worker is alive but cannot be sent the request); each case assigns every (request, worker) a behaviour in {ok, failure, silent, close, duplicate, late, processing-then-ok, failure-after-ok, answer under another worker's id, unknown id}, interleaves the answers of concurrent requests in a random order, optionally delivers several workers' answers in ONE poll batch (hub blocked inside SaveState-to-FIFO), and ends with a time advance past the deadline; verbs: AddCluster (mutating), RemoveCluster of a missing cluster (rejected by main), QueryClustersHashes/Status/QueryMetrics, LoadState (k requests / missing file), ListWorkers, HardStop/SoftStop, request_type None/LaunchWorker/ReturnListenSockets; non-trivial = at least one worker misbehaves (not plain ok) or two requests overlap; distinct = distinct op sequence".into()
     }
     fn cases(&self, thorough: bool) -> u64 {
-        if thorough { 4000 } else { 160 }
+        if thorough { 3000 } else { 160 }
     }
     fn keep_prefix(&self) -> usize {
         // every re-run of a case costs up to several seconds of real time
